@@ -15,7 +15,8 @@ EXC = {
 
 
 class Runner(object):
-    def __init__(self, schema_js, case=None, via_sql=False):
+    def __init__(self, schema_js, case=None, via_sql=False, checking=True):
+        self.checking = checking
         self.schema_js = schema_js
         self.schema = Schema(schema_js)
         self.case = case
@@ -172,6 +173,8 @@ class Runner(object):
         return st, live
 
     def compare(self, after_reject=None):
+        if not self.checking:
+            return
         want = self.sh.state()
         got, live = self.observe()
         tag = ('after-rejected-%s:' % after_reject) if after_reject else ''
